@@ -79,10 +79,11 @@ SilkOK(e) ==
   /\ e.fr = Samples(e) /\ e.pr = Samples(e)
   /\ nf >= 1 /\ <<e.fh, e.fl>> = <<e.rh[nf], e.rl[nf]>>
 \* stricter than any listed property (SPEC-DRIFT only): when the packet carries LBRR data for the mid channel, what
-\* FEC decoding returns is not what concealment returns from the same decoder state
+\* FEC decoding returns is not what concealment returns from the same decoder state (unless the output is degenerate:
+\* all samples zero or saturated, field fz)
 SilkDriftOK(e) ==
   LET f == SilkDec(SilkRq(e), FLAG_DECODE_LBRR, 0) IN
-  (\E k \in 1..Len(f.calls) : ~f.calls[k].concealMid) => e.feq = 0
+  (\E k \in 1..Len(f.calls) : ~f.calls[k].concealMid) => (e.feq = 0 \/ e.fz = 1)
 
 (* the reservations of clt_compute_allocation seen from the encoder side *)
 AllocOK(e) ==
